@@ -47,7 +47,7 @@ PLAN = dict(
     quick=_jobs("quick"), thorough=_jobs("thorough"),
     required_classes=dict(all=["fn:" + f for f in _FN]
                           + [f + ":m<8" for f in _FN]
-                          + ["cfg:full", "cfg:generic", "divisor==m", "divisor<1", "int32:min/max", "to_znx64:probe:pred(1/2)"]
+                          + ["cfg:full", "cfg:generic", "divisor==m", "divisor<1", "int32:min/max", "to_znx64:probe:pred(1/2)", "to_znx64:tie->towards-zero", "to_znx64:tie->away-from-zero"]
                           + ["from_znx64:" + v for v in ("api", "simple", "ref", "bnd50_fma", "sel:ref", "sel:bnd50_fma")]
                           + ["to_znx64:" + v for v in ("api", "simple", "ref", "avx2_bnd50_fma", "avx2_bnd63_fma", "sel:ref",
                                                        "sel:bnd50", "sel:bnd63", "log2bound<=50", "log2bound>50")]
